@@ -26,6 +26,9 @@ class Gaussian(_ProbabilisticModel):
     def __post_init__(self):
         D = self.mean.shape[-1]
         c = np.reshape(self.covariance, (-1, D, D))
+        # sklearn allocates the precision factor with the dtype of the
+        # covariance: an integer dtype would truncate it to zeros.
+        c = c.astype(np.result_type(c.dtype, np.float32), copy=False)
         pc = _compute_precision_cholesky(c, 'full')
         self.precision_cholesky = np.reshape(pc, self.covariance.shape)
         self.log_det_precision_cholesky = np.reshape(
